@@ -147,7 +147,7 @@ def run_e2e(case):
             import random as _random
             _random.Random(case["shuffle"]).shuffle(obs)
         cfg = emu_mps.MPSConfig(observables=obs,
-                                log_level=logging.CRITICAL, optimize_qubit_ordering=case["reorder"])
+                                log_level=logging.CRITICAL, optimize_qubit_ordering=case["reorder"], **case.get("cfg", {}))
         Uf = U_of_t_factory(case)
         import emu_mps.optimatrix as optimat
         import torch
@@ -229,6 +229,92 @@ def e2e_stage(ctx, n_cases):
                 f"emu-mps observables differ from exact evolution of the per-step Hamiltonian (occ err {m:.3g})",
                 {"case": _ser(case), "errors": errs, "atom_order": order, "finding_key": key})
     ctx.extra["e2e_worst_occupation_error"] = worst
+
+
+# ---- the local exponentials go through the REFUSING Krylov entry point -------------------------------------------
+# TDVP's local steps are emu_mps.solver_utils.evolve_pair / evolve_single -> krylov_exp(op, x, ...), the wrapper that raises
+# RecursionError when the Lanczos/Arnoldi exponential did not converge within max_krylov_dim.  (a) source shape, fail
+# closed; (b) runs with a small Krylov budget: every run is either refused or as accurate as any other run.
+def krylov_entry_problems():
+    import ast
+
+    try:
+        tree = ast.parse((common.REPO / "emu_mps/solver_utils.py").read_text())
+    except SyntaxError as ex:
+        return [f"syntax error: {ex}"]
+    out = []
+    want_kw = {"exp_tolerance": "config.precision * config.extra_krylov_tolerance",
+               "norm_tolerance": "config.precision * config.extra_krylov_tolerance",
+               "max_krylov_dim": "config.max_krylov_dim", "is_hermitian": "is_hermitian"}
+    for name in ("evolve_pair", "evolve_single"):
+        fn = next((n for n in tree.body if isinstance(n, ast.FunctionDef) and n.name == name), None)
+        if fn is None:
+            out.append(f"{name} not found")
+            continue
+        def _callee(c):
+            f = c.func
+            return f.id if isinstance(f, ast.Name) else (f.attr if isinstance(f, ast.Attribute) else "")
+        kry = [c for c in ast.walk(fn) if isinstance(c, ast.Call) and "krylov" in _callee(c).lower()]
+        if [ast.unparse(c.func) for c in kry] != ["krylov_exp"]:
+            out.append(f"{name} must call krylov_exp exactly once and no other Krylov entry point: "
+                       f"{[ast.unparse(c.func) for c in kry]}")
+            continue
+        kw = {k.arg: ast.unparse(k.value) for k in kry[0].keywords}
+        if kw != want_kw:
+            out.append(f"{name}: unexpected krylov_exp keywords {kw}")
+    names = sorted(a.name for n in ast.walk(tree) if isinstance(n, (ast.ImportFrom, ast.Import)) for a in n.names
+                   if "krylov_exp" in a.name)
+    if names != ["krylov_exp"]:
+        out.append(f"solver_utils imports {names} as Krylov exponential entry points (expected only krylov_exp)")
+    try:
+        import importlib
+        import emu_mps.solver_utils as SU
+        KE = importlib.import_module("emu_base.math.krylov_exp")
+        if SU.krylov_exp is not KE.krylov_exp:
+            out.append("emu_mps.solver_utils.krylov_exp is not emu_base.math.krylov_exp.krylov_exp (the entry point C07 is about)")
+    except Exception as ex:  # pragma: no cover
+        out.append(f"cannot import the Krylov entry point: {ex!r}")
+    local = [n.name for n in ast.walk(tree) if isinstance(n, (ast.FunctionDef, ast.ClassDef)) and n.name == "krylov_exp"]
+    if local:
+        out.append("solver_utils defines its own krylov_exp")
+    return out
+
+
+def krylov_budget_stage(ctx, n_cases):
+    stats = ctx.extra.setdefault("krylov_budget_runs", {"refused": 0, "accepted": 0, "worst_accepted_occ_err": 0.0})
+    for i in range(n_cases):
+        if i % 2 == 0:
+            # stiff two-atom runs (|H| dt of order 1-10): two-site TDVP is exact on two atoms, so an answered run must be
+            # accurate; a Krylov space of dimension 2-3 cannot hold the exponential of the 4-dimensional local problem
+            steps = ctx.rng.choice([4, 6])
+            case = dict(prob=D.random_problem(ctx.rng, 2, steps, dt=ctx.rng.choice([100.0, 200.0]), local=True,
+                                              scale=ctx.rng.choice([1.0, 2.0])), reorder=False)
+            case["cfg"] = {"max_krylov_dim": ctx.rng.choice([2, 3])}
+        else:
+            case = e2e_case(ctx.rng, n=ctx.rng.choice([3, 4, 5]), reorder=(i % 4 == 1), local=(i % 3 != 2))
+            case["cfg"] = {"max_krylov_dim": ctx.rng.choice([2, 3, 4, 6])}
+        prob = case["prob"]
+        try:
+            errs, order = run_e2e(case)
+        except RecursionError:
+            stats["refused"] += 1
+            ctx.count_case({"kind": "krylov-budget", "n": prob["n"], "steps": prob["steps"],
+                            "max_krylov_dim": case["cfg"]["max_krylov_dim"], "refused": True}, nontrivial=True)
+            continue
+        except Exception as ex:
+            ctx.violation(f"emu-mps raised {type(ex).__name__} (not the documented refusal) with a small Krylov budget: {ex!r}",
+                          {"case": _ser(case), "finding_key": "krylov-budget-raises"})
+            continue
+        m = max(e["occ_err"] for e in errs)
+        en = max(e["en_err"] for e in errs)
+        stats["accepted"] += 1
+        stats["worst_accepted_occ_err"] = max(stats["worst_accepted_occ_err"], m)
+        ctx.count_case({"kind": "krylov-budget", "n": prob["n"], "steps": prob["steps"],
+                        "max_krylov_dim": case["cfg"]["max_krylov_dim"], "refused": False, "occ_err": m}, nontrivial=True)
+        if m > OCC_TOL or en > EN_TOL * max(1.0, prob["n"]):
+            ctx.violation(f"emu-mps answered a run whose local Krylov exponentials cannot converge within max_krylov_dim="
+                          f"{case['cfg']['max_krylov_dim']} instead of refusing it (occ err {m:.3g}, energy err {en:.3g})",
+                          {"case": _ser(case), "errors": errs, "atom_order": order, "finding_key": "krylov-budget-answered"})
 
 
 # ---- environment ("bath") kernels: exact tie of Model/Bath.v + implementation-level oracle ------------------------
@@ -396,7 +482,7 @@ def _ser(case):
         out["slm"] = case["slm"]
     if case.get("perm") is not None:
         out["perm"] = case["perm"]
-    for k in ("more_obs", "fidelity", "shuffle"):
+    for k in ("more_obs", "fidelity", "shuffle", "cfg"):
         if case.get(k) is not None and case.get(k) is not False:
             out[k] = case[k]
     return out
@@ -411,7 +497,7 @@ def _deser(c):
         out["slm"] = c["slm"]
     if c.get("perm") is not None:
         out["perm"] = c["perm"]
-    for k in ("more_obs", "fidelity", "shuffle"):
+    for k in ("more_obs", "fidelity", "shuffle", "cfg"):
         if c.get(k) is not None:
             out[k] = c[k]
     return out
@@ -423,6 +509,10 @@ def run(ctx):
     trace_stage(ctx, "TDVP", ctx.n(60, 1200), "C02trace")
     bath_stage(ctx, ctx.n(40, 400))
     e2e_stage(ctx, ctx.n(10, 150))
+    probs = krylov_entry_problems()
+    ctx.obligation("correspondence:evolve_pair/evolve_single call the refusing Krylov entry point krylov_exp (source shape)",
+                   not probs, "; ".join(probs), kind="correspondence")
+    krylov_budget_stage(ctx, ctx.n(8, 80))
     ctx.rule = ("(a) scripted stepping cases N in 2..9, 1-5 steps, int/fractional/irregular times, malformed "
                 "(short target_times, extra rows): real MPSBackendImpl with stubbed kernels vs vm_compute of the "
                 "Gallina machine, every event and the attribute tuple after every progress(); non-trivial = >= 10 "
@@ -430,7 +520,9 @@ def run(ctx):
                 "dense expm reference of the per-step Hamiltonian. (c) environment kernels: random Gaussian-integer state/operator "
                 "factors (complex, non-symmetric operator factors, d = 2/3, bonds 1-3, chains of 2-4 sites): new_left_bath, "
                 "new_right_bath, right_baths vs vm_compute of Model/Bath.v entry by entry, plus the definitional einsum, "
-                "cut-independence, dense <psi|H|psi> and EffectiveHamiltonian oracles on the real code.")
+                "cut-independence, dense <psi|H|psi> and EffectiveHamiltonian oracles on the real code. (d) Krylov budget: end-to-end runs with "
+                "max_krylov_dim in {2,3,4,6}: a run is either refused (RecursionError of krylov_exp) or meets the same tolerances as (b); "
+                "evolve_pair / evolve_single are pinned (ast) to the refusing entry point krylov_exp with the configured tolerances.")
     ctx.trusted_base += ["hand-written Model/MpsMachine.v, tied by the trace correspondence",
                          "dense reference tools/props/_dense_ref.py (scipy expm)"]
     ctx.assumptions += ["numerical kernels (evolve_pair/evolve_single Krylov + truncation) are NOT proved accurate: "
@@ -479,7 +571,11 @@ META = {
              "progress()` of MPSBackend._run (source shape pinned) terminates with that trace. Environment tensors: over every "
              "commutative ring with involution the left and right bath updates are adjoint under the contraction over a cut, hence the "
              "contraction of left and right environments is the same at every cut of every chain (all lengths, bond and physical "
-             "dimensions) - the bath model is tied exactly (Gaussian-integer tensors) to new_left_bath/new_right_bath/right_baths. "
+             "dimensions) - the bath model is tied exactly (Gaussian-integer tensors) to new_left_bath/new_right_bath/right_baths; every right "
+             "environment is the dense operator seen through the state, sum_ij conj(amp_a i) O_b(i,j) amp_c j (C02_right_environment_is_dense). "
+             "evolve_pair / evolve_single are pinned to the refusing Krylov entry point krylov_exp (ast + identity of the function object), "
+             "and runs with a small Krylov budget (max_krylov_dim 2-6, incl. stiff two-atom runs where two-site TDVP is exact) are either "
+             "refused or as accurate as any other run. "
              "The machine model is tied to mps_backend_impl.py by an exact "
              "event-and-attribute trace correspondence with all kernels stubbed. Accuracy of the numerical kernels is "
              "NOT proved; it is validated end to end against an independent dense expm reference."),
